@@ -165,10 +165,14 @@ def mk_tproj(base, idx):
 def subterms(t):
     """All subterms, pre-order (binding structure of mu is ignored: the update is a subterm)."""
     stack = [t]
+    seen = set()
     while stack:
         x = stack.pop()
         if not isinstance(x, tuple):
             continue
+        if id(x) in seen:
+            continue                    # terms are DAGs: every shared object is visited once
+        seen.add(id(x))
         if x and isinstance(x[0], str):
             yield x
             rest = x[1:]
@@ -908,6 +912,7 @@ class Evaluator:
         results = []
         out_state = None
         prior = []
+        prior_guarded = []
         for idx, arm in enumerate(n["arms"]):
             d = pat_desc(arm["pat"])
             if concrete is not None:
@@ -931,7 +936,7 @@ class Evaluator:
                         return self.expr(arm["body"])
             self.st = base.copy()
             self._bind(arm["pat"], scrut, self.st.env)
-            self._pc_push(("match", scrut, d, True, n["id"], tuple(prior), idx))
+            self._pc_push(("match", scrut, d, True, n["id"], tuple(prior), idx, tuple(prior_guarded)))
             g = None
             if arm.get("guard"):
                 g, gb = self.cond(arm["guard"])
@@ -947,6 +952,8 @@ class Evaluator:
                 out_state = self.st if out_state is None else merge_states(out_state, self.st, ("arm", n["id"], idx))
             if g is None:
                 prior.append(d)
+            else:
+                prior_guarded.append((d, g))       # an earlier arm that is taken when its pattern matches and its guard holds
         self.st = out_state
         if out_state is None:
             return NEVER
@@ -1371,6 +1378,12 @@ class Evaluator:
                 else:
                     t = ("hof", name, recv, body, tuple(other))
                 site.term = t
+                # a combinator that takes `&mut self` (next_if, retain, sort_by ..) changes its receiver
+                if str(n.get("rty", "")).startswith("&mut") or (name in ("next_if", "retain", "sort_by", "sort_by_key", "dedup_by_key", "retain_mut")):
+                    r_ = self.root_local(n["recv"])
+                    if r_ and self.st is not None and r_[0] in self.st.env:
+                        old_ = self.st.env[r_[0]]
+                        self.st.env[r_[0]] = ("mut", old_, ("call", d or name, (body,)), r_[2])
                 return t
             if fa_s.get("k") == "path" and fa_s.get("res") == "def" and fa_s.get("dk") in ("Fn", "AssocFn"):
                 site = self._site(node=n, kind="mcall", callee=d, inst=n.get("inst"), name=name,
